@@ -213,6 +213,19 @@ func runInstance(spec *InstSpec, prepared []byte, g *gate, idx int) (digest stri
 				e = u.w.Flush()
 			case "C":
 				e = u.w.Close()
+			case "R":
+				// reuse the Writer for another stream (the usual pool pattern)
+				h.Write(buf.Bytes())
+				buf.Reset()
+				u.reset(&gatedWriter{&buf, g, idx})
+			case "N":
+				// drop the Writer and construct a new one while other instances are running
+				h.Write(buf.Bytes())
+				buf.Reset()
+				u, err = newWriter(set, &gatedWriter{&buf, g, idx}, dict)
+				if err != nil {
+					return "", "ctor:" + err.Error(), ""
+				}
 			}
 			errs += errStr(e) + ","
 		}
@@ -308,17 +321,30 @@ func randomInstance(rng *rand.Rand, small bool) InstSpec {
 	}
 	d := randData(rng, n)
 	if rng.Intn(2) == 0 {
+		// one to three streams through the same instance: closed Writers are reused
+		// through Reset or replaced by newly constructed ones while others run
 		sp := InstSpec{Role: "writer", Set: set, Data: d}
+		streams := 1 + rng.Intn(3)
 		left := n
-		for left > 0 {
-			k := minInt(left, 1+rng.Intn(n))
-			sp.Ops = append(sp.Ops, Op{Op: "W", N: k})
-			left -= k
-			if rng.Intn(3) == 0 {
-				sp.Ops = append(sp.Ops, Op{Op: "F"})
+		for st := 0; st < streams; st++ {
+			if st > 0 {
+				sp.Ops = append(sp.Ops, Op{Op: []string{"R", "N"}[rng.Intn(2)]})
 			}
+			part := left
+			if st < streams-1 {
+				part = left / 2
+			}
+			for part > 0 {
+				k := minInt(part, 1+rng.Intn(n))
+				sp.Ops = append(sp.Ops, Op{Op: "W", N: k})
+				part -= k
+				left -= k
+				if rng.Intn(3) == 0 {
+					sp.Ops = append(sp.Ops, Op{Op: "F"})
+				}
+			}
+			sp.Ops = append(sp.Ops, Op{Op: "C"})
 		}
-		sp.Ops = append(sp.Ops, Op{Op: "C"})
 		return sp
 	}
 	set.Window = 32768
